@@ -24,7 +24,8 @@ Inductive fcase :=
 | FCmd (ca : N) (has_repo : bool) (parents : list N) (evs : list fev) (pending : list ftask)
 | FTa (evs : list string) (pending : list ftask)
 | FStart (cas : list (N * list N)) (pending : list ftask)
-| FPublish (running_before : bool) (pending : list ftask).
+| FPublish (running_before : bool) (pending : list ftask)
+| FNames (distinct_tasks pending_entries : N).
 
 Definition has_task (t : ftask) (l : list ftask) : bool :=
   existsb (fun x => String.eqb (t_kind x) (t_kind t) && N.eqb (t_ca x) (t_ca t)
@@ -66,6 +67,9 @@ Definition follow_ok (c : fcase) : bool :=
       forallb (fun k => has_kind k pending) recurring
       && forallb (fun '(ca, ps) => forallb (fun p => has_task (mkT "SyncParent" ca p) pending) ps) cas
   | FPublish _ pending => has_kind "RrdpUpdateIfNeeded" pending
+  (* tasks that differ in CA, parent, class or key are queued under different names: none replaces another
+     (queue/TaskName.v proves it for the name format, for handles without '_') *)
+  | FNames n m => N.eqb n m
   end.
 
 (** The oracle is not vacuous: a ROA change queues a repository sync, and a command that lost it fails. *)
@@ -77,7 +81,8 @@ Example follow_ok_examples :
   /\ follow_ok (FCmd 1 true [2; 3] [mkEv "RepoUpdated" None None None] [mkT "SyncParent" 1 2]) = false
   /\ follow_ok (FStart [] [mkT "RepublishIfNeeded" 0 0; mkT "RenewObjectsIfNeeded" 0 0; mkT "UpdateSnapshots" 0 0]) = true
   /\ follow_ok (FStart [] []) = false
-  /\ follow_ok (FPublish true []) = false.
+  /\ follow_ok (FPublish true []) = false
+  /\ follow_ok (FNames 12 11) = false /\ follow_ok (FNames 12 12) = true.
 Proof. vm_compute. repeat split. Qed.
 
 Fixpoint failing_from (f : fcase -> bool) (i : N) (l : list fcase) : list N :=
